@@ -22,7 +22,11 @@ OpMat(nt, left, right) ==
       dr == [k \in DOMAIN right |-> DimOf(nt, right[k])]
   IN  [rows |-> Size(dl), cols |-> Size(dr), data |-> Denote(nt, left \o right)]
 ConjMat(M) == [M EXCEPT !.data = [k \in DOMAIN M.data |-> GConj(M.data[k])]]
-Variant(M, op) == CASE op = "N" -> M [] op = "T" -> Transpose(M) [] op = "C" -> ConjMat(M) [] op = "H" -> Dagger(M)
+Variant1(M, op) == CASE op = "N" -> M [] op = "T" -> Transpose(M) [] op = "C" -> ConjMat(M) [] op = "H" -> Dagger(M)
+\* `op` is one letter or a sequence of letters applied one after the other (A.H.H, A.conj().T, ...)
+RECURSIVE VariantSeq(_, _)
+VariantSeq(M, ops) == IF ops = <<>> THEN M ELSE VariantSeq(Variant1(M, Head(ops)), Tail(ops))
+Variant(M, ops) == VariantSeq(M, ops)
 TraceOf(M) == SumG(LAMBDA i : MatEntry(M, i, i), 1, M.rows)
 
 OnGrid(ln) == ln.ongrid
@@ -42,7 +46,7 @@ NormClauses(ln, nt, e) ==
      <<"NormExact", (ln.exc = "" /\ OnGrid(ln)) => ln.result = n2 * Pow10(2 * (e + ln.scale))>> >>
 
 LinopClauses(ln, nt, e) ==
-  LET M == Variant(OpMat(nt, ln.left, ln.right), ln.op)
+  LET M == Variant(OpMat(nt, ln.left, ln.right), ln.ops)
       expect == IF ln.kind = "trace" THEN <<TraceOf(M)>>
                 ELSE IF ln.kind = "dense" THEN M.data
                 ELSE MatVec(M, ln.vec) IN
